@@ -161,7 +161,7 @@ struct LifeH : public ykmc::Harness {
     }
 
     void finish(ykmc::ExecResult& r) override {
-        r.outcome = "e" + std::to_string(epoch_management::epoch_.load()) + "f" + std::to_string(ykalloc::total_frees());
+        r.outcome = "e" + std::to_string(epoch_management::epoch_.load());
         if (!problem.empty()) {
             r.verdict = ykmc::V_VIOLATION;
             r.symptom = problem_sym;
